@@ -11,6 +11,7 @@ RULE = ("tsc: (a,b,f) drawn from boundary values {0,1,2^32+-1,2^63+-1,2^64-1} an
 ASSUMPTIONS = [
     "rdtsc/cntvct assembly, frequency probing and the Instant clock are not modelled (only the conversions)",
     "the virtual clock hook returns the scripted counter from TscTimestamp::start/end",
+    "the OS clock (Instant) has nanosecond resolution, so a measured OS precision is a non-zero whole number of nanoseconds (hypothesis of C11_precq_model_sb)",
 ]
 CONSTS_USED = ["tsc_picos_const", "prec_seen_threshold", "prec_inner_loop", "prec_delay_giveup"]
 GENERATED_OBLIGATIONS = ["C11_picos_const : tsc_picos_const = 10^12"]
@@ -66,7 +67,41 @@ def streams(tier, rng):
         Stream("duration-conversion", "dur", dur, nontrivial=lambda c, m: c != "0 0"),
         Stream("precision-uniform-clock", "prec", prec),
         Stream("tsc-conversion-release", "tsc", tsc[: len(tsc) // 3], nontrivial=nt_tsc, release=True),
+        precq_stream(tier, rng),
     ]
+
+
+def precq_stream(tier, rng):
+    """The cached `Timer::precision()` queried for both timer kinds in ONE process (one process per case):
+    `K K K | f step`.  TSC steps are chosen so that the TSC precision is not a whole number of nanoseconds,
+    which the OS timer's always is, so a value leaking from one kind's cache slot to the other's is visible."""
+    import subprocess
+    from concurrent.futures import ThreadPoolExecutor
+    fs = [(10**12, 50), (10**12, 1), (10**12, 12345), (3 * 10**9, 7), (3 * 10**9, 1), (24_000_000, 1), (10**9 + 7, 3), (2_400_000_000, 11)]
+    cases = ["T O | 1000000000000 50", "O T | 1000000000000 50", "T | 3000000000 7", "O | 3000000000 7", "O O T T O T | 24000000 1"]
+    n = 40 if tier == "quick" else 400
+    while len(cases) < n:
+        f, step = rng.choice(fs)
+        ks = " ".join(rng.choice("TO") for _ in range(rng.randrange(1, 6)))
+        cases.append(f"{ks} | {f} {step}")
+
+    def run_one(hbin, case):
+        try:
+            p = subprocess.run([hbin, "precq"], input=case + "\n", capture_output=True, text=True, timeout=120)
+            out = p.stdout.strip().splitlines()
+            return out[0] if out else "crash rc=%s" % p.returncode
+        except subprocess.TimeoutExpired:
+            return "hang"
+
+    def impl_runner(st, hbin):
+        with ThreadPoolExecutor(max_workers=8) as ex:
+            return list(ex.map(lambda c: run_one(hbin, c), st.cases))
+
+    return Stream("precision-cache-per-kind", "precq", cases, impl_runner=impl_runner,
+                  model_input=lambda c, i: c + " # " + (i[3:] if i.startswith("ok ") else ""),
+                  nontrivial=lambda c, m: "T" in c.split("|")[0] and "O" in c.split("|")[0],
+                  describe="Timer::precision() (cached) for sequences of TSC/OS queries in one process, one process per case; "
+                           "history-driven: the OS measurement is taken from the implementation's first OS answer")
 
 MANIFEST = {
     "text": "Coq theorems over all of u64 x u64 x (u64 minus 0): the conversion model returns exactly the floor, never overflows its 128-bit intermediate, is monotone, additive up to 1 ps, shift invariant; Duration conversion exact and panic-free; measure_precision on any uniform stream of length >= 101 returns the step. The model is tied to the code by differential execution on boundary-dense inputs (debug and release) and by the generated PICOS constant.",
